@@ -30,6 +30,10 @@ def check(run):
         run.guard("C15.via.C01.1.token-source", cfg, lambda: _C01.rule_store(b, F, cfg))
         b2 = run.borrow("C03", why="a csp directive may contain '=' itself")
         run.guard("C15.via.C03.7.option-split", cfg, lambda: _C03.rule_option_split(b2, F, cfg))
+        from . import C05 as _C05
+        b3 = run.borrow("C05", only=r"field:(modifier_option|mask)\b|optimize:", why="csp rules with different directives must never be fused")
+        run.guard("C15.via.C05.1.fusion-key", cfg, lambda: _C05.rule_key(b3, F, cfg))
+        run.guard("C15.via.C05.3.what-is-optimised", cfg, lambda: _C05.rule_what(b3, F, cfg))
 
 
 def rule_type_gate(run, F, cfg):
